@@ -68,6 +68,8 @@ let () =
         | "dffdslen" :: _ -> Some (XFLen (z 1, fb 1, zi 2))
         | "dffid" :: _ -> Some (XFGet (z 0, fb 1, zi 2, zi 3))
         | "dffds" :: _ -> Some (XFGet (z 1, fb 1, zi 2, zi 3))
+        | "restart" :: _ -> Some XRestart
+        | "dflablist" :: _ when List.length toks >= 5 -> Some (XLablistPage (zi 1, zi 2, zi 3, zi 4))
         | _ -> (match op with Some o -> Some (XOp o) | None -> None) in
       match op with
       | None -> (match toks with "history" :: _ -> Printf.printf "%d history\n" !ln
